@@ -463,7 +463,7 @@ def probes(ck, env):
             ck.known("N43 a constant whose printed form is 64 KiB or longer cannot be re-read (bufio.Scanner token limit)")
 
 
-def run_cases(ck, cases, tag, fn="judge", nshards=16):
+def run_cases(ck, cases, tag, nshards=16):
     ck.log("running %d cases on the Go side" % len(cases))
     outs = ck.run_go("c19", cases)
     ck.log("Go done")
@@ -479,10 +479,10 @@ def run_cases(ck, cases, tag, fn="judge", nshards=16):
             failed.append((i, v))
         if o["out"].get("write_err"):
             continue
-        terms.append(cq_case(c, o["out"]))
+        terms.append("(%s, %s)" % ("true" if c.get("ties") else "false", cq_case(c, o["out"])))
         idxs.append(i)
     ck.log("evaluating the model on %d cases (%d KB of terms)" % (len(terms), sum(len(t) for t in terms) // 1024))
-    verdicts = ck.run_coq("C19", fn, terms, shard=max(10, len(terms) // nshards + 1), tag=tag)
+    verdicts = ck.run_coq("C19", "judge_sel", terms, shard=max(10, len(terms) // nshards + 1), tag=tag)
     ck.log("model done")
     return outs, failed, list(zip(idxs, verdicts))
 
@@ -505,7 +505,7 @@ def run(ck):
         c["shape"] = "corpus"
         (tcorpus if c.get("ties") else cases).append(c)
     ncorpus = len(cases)
-    for i in range(int(os.environ.get("C19_N", 0)) or ck.n(200, 2500)):      # C19_N: smaller runs for experiments
+    for i in range(int(os.environ.get("C19_N", 0)) or ck.n(150, 2500)):      # C19_N: smaller runs for experiments
         cases.append(gen_case(rng, env, big=(i % 10 == 0)))
     nrandom = len(cases) - ncorpus
     exhaustive = False
@@ -514,14 +514,10 @@ def run(ck):
         exhaustive = True
     # hash ties: the deterministic-bytes clause on stores whose facts share hashes (own judge: the key
     # pair must be injective - the hypothesis of deterministic_bytes - and a tie must be present)
-    tcases = tcorpus + [gen_tie_case(rng, env) for _ in range(int(os.environ.get("C19_NT", 0)) or ck.n(70, 900))]
+    tcases = tcorpus + [gen_tie_case(rng, env) for _ in range(int(os.environ.get("C19_NT", 0)) or ck.n(50, 900))]
     nmain = len(cases)
-    outs, failed, judged = run_cases(ck, cases, "cases", nshards=ck.n(12, 16))
-    outs_t, failed_t, judged_t = run_cases(ck, tcases, "ties", fn="judge_ties", nshards=ck.n(3, 12))
     cases = cases + tcases
-    outs = outs + outs_t
-    failed = failed + [(i + nmain, why) for i, why in failed_t]
-    judged = judged + [(i + nmain, v) for i, v in judged_t]
+    outs, failed, judged = run_cases(ck, cases, "cases")
     STAGE_T = dict(STAGE)
     STAGE_T[5] = "sort key (Atom.Hash, Atom.String) not injective on the facts of a predicate: outside the hypothesis of deterministic_bytes"
     STAGE_T[6] = "no hash tie in a case generated to contain one (checks/term_common.py hash differs from Atom.Hash?)"
@@ -603,7 +599,7 @@ def replay(ck, path):
     print("replay: property verdict on the implementation's output: %s" % (v or "holds"))
     j = 0
     if not out["out"].get("write_err"):
-        j = ck.run_coq("C19", "judge_ties" if case.get("ties") else "judge", [cq_case(case, out["out"])])[0]
+        j = ck.run_coq("C19", "judge_sel", ["(%s, %s)" % ("true" if case.get("ties") else "false", cq_case(case, out["out"]))])[0]
         print("replay: model comparison code = %d" % j)
     if v or j:
         print("VIOLATION property=C19 replay=%s" % path)
@@ -619,13 +615,18 @@ META = {
             "lists no predicate twice returns exactly the matching facts (offset lemma over the header loop), "
             "and deterministic output is a function of the set of listed predicates and the set of facts whenever the "
             "(Atom.Hash, Atom.String) sort key is injective on the facts of each predicate (a witness shows this "
-            "hypothesis is needed). All statements are proved in full; nothing is partial. The model is tied to factstore/simplecolumn.go on every "
+            "hypothesis is needed; hash ties are inside the theorem: two listings of p(\"/a\"), p(/a) under one hash satisfy the hypotheses and are "
+            "written identically, and a writer that sorts on the hash alone is refuted on them). All statements are proved in full; nothing is partial. The model is tied to factstore/simplecolumn.go on every "
             "run: generated stores (all constant kinds, names with '%', zero-arity and empty predicates) x "
             "{plain, gzip, zstd} x {deterministic, not} x {order-controlled source, in-memory stores, re-saved lazy store} "
             "are written and read back by the real code; the verdict is decided on Go's output, the model is compared "
-            "on bytes, Add sequence, header and query answers.",
+            "on bytes, Add sequence, header and query answers. A second stream holds stores with hash-equal distinct facts under one predicate "
+            "(same payload under another type, 0 = [] = {}, [1] = 65792, twins inside pairs / lists / maps): deterministic writes from a slice-backed "
+            "source in three orders and from MultiIndexedArrayInMemoryStore filled in two orders must be byte-equal and equal to the model's bytes; "
+            "the judge first decides that the (Hash, String) key pair is injective on the case (the theorem's hypothesis) and that a tie is present.",
     "note": "Trusted: Coq kernel + vm_compute; printer/parser of constants are parameters (C08/C09), instantiated per case "
             "from String() values observed in Go; gzip/zstd as identity laws (sampled on every case); the model is tied to the "
             "code by sampling (exhaustive on a small space in the thorough tier). Known-finding probes: N18, F8, names the "
-            "lexer rejects, 64 KiB line limit.",
+            "lexer rejects, 64 KiB line limit. Hash-keyed in-memory stores conflate hash-equal atoms (F8): they are neither source nor target "
+            "in the hash-tie stream.",
 }
